@@ -434,6 +434,27 @@ def gen_arrays(rng, tier, codecs=None):
                         ops.append(f"pfor.rt {arr_spec(rng, n)} t={hx(t)}")
                 else:
                     ops.append(f"{c}.rt {arr_spec(rng, n, maxbits=maxbits)}")
+    # run lengths straddling the tagged-length boundaries, as first, interior and last run
+    for c in ("rle", "rleh"):
+        if c in codecs:
+            for L in [239, 240, 241, 242, 2287, 2288, 2289] + ([67823, 67824] if tier != "quick" else []):
+                v = rng.choice([0, 7, 240, 241, M64])
+                ops.append(f"{c}.rt @c:1:{hx(L)}:{hx(v)}:0")
+                ops.append(f"{c}.rt {explicit([1, 2, 3] + [v] * L)}")
+                ops.append(f"{c}.rt {explicit([v] * L + [5, 5, 6])}")
+                ops.append(f"{c}.rt {explicit([4] + [v] * L + [9] * 3)}")
+    # dictionary cardinalities straddling the index-width boundaries (exactly k distinct values)
+    if "dict" in codecs:
+        ks = [1, 2, 255, 256, 257] + ([65535, 65536, 65537] if tier != "quick" else [])
+        for k in ks:
+            base = rng.choice([0, 1, 1 << 20, 1 << 40])
+            stride = rng.choice([1, 3, 257])
+            vals = [base + stride * i for i in range(k)]
+            rng.shuffle(vals)
+            ops.append(f"dict.rt {explicit(vals)}")
+            extra = vals + [rng.choice(vals) for _ in range(rng.randint(1, 300))]
+            rng.shuffle(extra)
+            ops.append(f"dict.rt {explicit(extra)}")
     # zig-zag definition
     for s in [0, 1, -1, 2, -2, 63, -64, (1 << 62), -(1 << 62), (1 << 63) - 1, -(1 << 63), -(1 << 63) + 1]:
         ops.append(f"zigzag {s}")
@@ -441,4 +462,33 @@ def gen_arrays(rng, tier, codecs=None):
         k = rng.randint(1, 63)
         x = rng.getrandbits(k)
         ops.append(f"zigzag {x if rng.random() < 0.5 else -x}")
+    return ops
+
+
+# ---------------------------------------------------------------- C11 bitstream
+def gen_bits(rng, tier):
+    ops = []
+    for W in (8, 16, 32, 64):
+        for o in range(W):
+            for n in range(1, W + 1):
+                if tier == "quick" and W == 64 and rng.random() < 0.5 and not (o + n in (63, 64, 65) or o == 0 or n in (1, 63, 64)):
+                    continue
+                word = rng.choice([0, 0, 1, 2, 5])
+                off = word * W + o
+                full = (1 << n) - 1
+                vals = {full, rng.getrandbits(n), 1 << (n - 1)}
+                if tier != "quick":
+                    vals |= {0, 1, rng.getrandbits(n), full - 1 if n > 1 else 0}
+                for v in vals:
+                    init = rng.choice(["0", "f", "r" + hx(rng.getrandbits(60))])
+                    ops.append(f"bits{W}.set init={init} {hx(off)} {hx(n)} {hx(v)}")
+    for n in range(2, 65):
+        lim = (1 << (n - 1)) - 1
+        pts = {0, 1, -1, lim, -lim, lim // 2, -(lim // 2)}
+        for _ in range(6 if tier == "quick" else 200):
+            x = rng.getrandbits(n - 1)
+            pts.add(x if rng.random() < 0.5 else -x)
+        for s in sorted(pts):
+            if abs(s) <= lim:
+                ops.append(f"bits.signed {hx(n)} {s}")
     return ops
